@@ -34,7 +34,7 @@ class Abs:
         return hash((self.tag, self.data))
 
 
-PLAIN = (bool, int, str, type(None))
+PLAIN = (bool, int, float, str, type(None))
 FLIP = {'Lt': 'Gt', 'Gt': 'Lt', 'LtE': 'GtE', 'GtE': 'LtE', 'Eq': 'Eq', 'NotEq': 'NotEq', 'Is': 'Is', 'IsNot': 'IsNot'}
 
 
@@ -442,3 +442,51 @@ def reached(pe, ctx, k=0):
         pe.benv.pop(b[1], None)
         return False
     return reached(pe, ctx, k + 1)
+
+
+class Refused(Exception):
+    def __init__(self, eff):
+        self.eff = eff
+
+
+def simulate(pe, effs, is_error):
+    """Walk an effect tree in program order under the evaluator's valuation: conditions are evaluated (an exception they
+    would raise propagates as Raises), loops over evaluable configuration domains are iterated, the first effect for
+    which is_error() holds ends the walk with Refused.  Returns normally when the end is reached."""
+    for e in effs:
+        k = e.kind
+        if k == 'if':
+            if pe.truth(pe.ev(e.cond)):
+                simulate(pe, e.then, is_error)
+            else:
+                simulate(pe, e.orelse, is_error)
+        elif k == 'for':
+            b = e.binder
+            dom = pe.ev(b[3])
+            if isinstance(dom, dict):
+                dom = list(dom.keys())
+            for pos, el in enumerate(dom):
+                pe.benv[b[1]] = el
+                pe.benv[('ix', b[1])] = pos
+                try:
+                    simulate(pe, e.body, is_error)
+                except Leave as lv:
+                    if lv.kind == 'break':
+                        break
+                    if lv.kind == 'continue':
+                        continue
+                    raise
+        elif k in ('call', 'iter'):
+            try:
+                simulate(pe, e.body, is_error)
+            except Leave as lv:
+                if lv.kind != 'return' or k == 'iter':
+                    raise
+        elif k == 'return':
+            raise Leave('return')
+        elif k in ('break', 'continue'):
+            raise Leave(k)
+        elif k == 'raise':
+            raise Raises('explicit raise at %s' % e.loc)
+        elif is_error(e):
+            raise Refused(e)
